@@ -33,7 +33,7 @@
     pointer after each store while the model resolves it once; the examples keep the differing case (the page of
     pdtVirtualAddr itself).
     Statements only; proofs are in Vmm/MapTrans.v and Vmm/StableInv.v. *)
-From Coq Require Import NArith String List.
+From Coq Require Import NArith String List Bool.
 From FF Require Import Lib.Word Lib.GoOps Gen.Consts_mm_vmm Gen.Trans_vmm_map Vmm.Pt Vmm.PtAccess.
 From FF Require Vmm.MapTrans Vmm.PdtTrans Vmm.StableInv.
 From FF Require Import Vmm.PtMap.
